@@ -35,11 +35,36 @@ impl Pki {
         let c = rcgen::generate_simple_self_signed(vec!["localhost".into()])?;
         std::fs::write(self_dir.join("localhost.der"), c.serialize_der()?)?;
         std::fs::write(self_dir.join("localhost.key.der"), c.serialize_private_key_der())?;
+        // PEM "full chain" identity files (leaf followed by its issuer), as deployments use them
+        for (set, side) in [(&a, "client"), (&a, "server"), (&b, "client"), (&b, "server")] {
+            let leaf = std::fs::read(set.p(&format!("{side}/localhost.der")))?;
+            let ca = std::fs::read(set.p(&format!("{side}/ca.der")))?;
+            std::fs::write(set.p(&format!("{side}/fullchain.pem")), format!("{}{}", pem("CERTIFICATE", &leaf), pem("CERTIFICATE", &ca)))?;
+        }
         Ok(Pki { a, b, self_dir })
     }
 }
 
 const T: Duration = Duration::from_secs(6);
+
+fn pem(label: &str, der: &[u8]) -> String {
+    const A: &[u8; 64] = b"ABCDEFGHIJKLMNOPQRSTUVWXYZabcdefghijklmnopqrstuvwxyz0123456789+/";
+    let mut b64 = String::new();
+    for ch in der.chunks(3) {
+        let n = (ch[0] as u32) << 16 | (*ch.get(1).unwrap_or(&0) as u32) << 8 | *ch.get(2).unwrap_or(&0) as u32;
+        b64.push(A[(n >> 18) as usize & 63] as char);
+        b64.push(A[(n >> 12) as usize & 63] as char);
+        b64.push(if ch.len() > 1 { A[(n >> 6) as usize & 63] as char } else { '=' });
+        b64.push(if ch.len() > 2 { A[n as usize & 63] as char } else { '=' });
+    }
+    let mut out = format!("-----BEGIN {label}-----\n");
+    for line in b64.as_bytes().chunks(64) {
+        out.push_str(std::str::from_utf8(line).unwrap());
+        out.push('\n');
+    }
+    out.push_str(&format!("-----END {label}-----\n"));
+    out
+}
 
 /// Ok(true) = registration answered Ok; Ok(false) = refused somewhere; Err = harness trouble
 async fn try_register_lib(addr: SocketAddr, ca: &str, cert: &str, key: &str, kind: u8, topic: &str) -> Result<bool, String> {
@@ -91,8 +116,8 @@ pub async fn run_case(pki: &Pki, c: &Case) -> Outcome {
     let (a, b) = (&pki.a, &pki.b);
     let server = match c.server % 3 {
         0 => TestServer::start(a),
-        1 => TestServer::start_with(&a.server_ca(), &b.server_cert(), &b.server_key()),
-        _ => TestServer::start(b),
+        1 => TestServer::start_with(&a.server_ca(), &b.p("server/fullchain.pem"), &b.server_key()),
+        _ => TestServer::start_with(&b.server_ca(), &b.p("server/fullchain.pem"), &b.server_key()),
     };
     let server = match server {
         Ok(s) => s,
@@ -122,7 +147,7 @@ pub async fn run_case(pki: &Pki, c: &Case) -> Outcome {
     let ca = if c.client_ca % 2 == 0 { a.client_ca() } else { b.client_ca() };
     let registered = match c.client % 4 {
         0 => try_register_lib(addr, &ca, &a.client_cert(), &a.client_key(), c.kind, &topic).await,
-        1 => try_register_lib(addr, &ca, &b.client_cert(), &b.client_key(), c.kind, &topic).await,
+        1 => try_register_lib(addr, &ca, &b.p("client/fullchain.pem"), &b.client_key(), c.kind, &topic).await,
         2 => try_register_lib(addr, &ca, &pki.self_dir.join("localhost.der").to_string_lossy(), &pki.self_dir.join("localhost.key.der").to_string_lossy(), c.kind, &topic).await,
         _ => {
             let id = RawIdentity { ca_der: std::fs::read(&ca).unwrap_or_default(), cert_key: None };
@@ -188,7 +213,7 @@ pub async fn run_case(pki: &Pki, c: &Case) -> Outcome {
 }
 
 pub fn run(ctx: &mut Ctx) {
-    ctx.rule = "the full product client certificate {CA A, CA B, self-signed, none} x CA the client trusts {A, B} x server identity {cert A / verifies clients against A, cert B / verifies against A (isolates the client's check of the server), cert B / verifies against B} x stream kind (4), with freshly generated keys every run (two independent runs of the bundled generator give the two CAs, rcgen the self-signed certificate, a raw quinn client the certificate-less peer); quick enumerates all 24 identity triples with one seed-chosen stream kind each (all four for the fully trusted triple), thorough all 96 cells twice; oracle: a registration is answered Ok exactly when the client's certificate chains to the CA the server verifies against AND the server's certificate chains to the CA the client trusts (three of the 24 triples), every other pairing is never answered Ok and nothing it publishes reaches a trusted subscriber; non-trivial = any pairing other than trusted x trusted".into();
+    ctx.rule = "the full product client certificate {CA A, CA B, self-signed, none} x CA the client trusts {A, B} x server identity {cert A / verifies clients against A, cert B / verifies against A (isolates the client's check of the server), cert B / verifies against B} x stream kind (4), with freshly generated keys every run; the CA-B identities are presented as PEM full-chain files (leaf + issuer), the CA-A ones as the generator's DER files (two independent runs of the bundled generator give the two CAs, rcgen the self-signed certificate, a raw quinn client the certificate-less peer); quick enumerates all 24 identity triples with one seed-chosen stream kind each (all four for the fully trusted triple), thorough all 96 cells twice; oracle: a registration is answered Ok exactly when the client's certificate chains to the CA the server verifies against AND the server's certificate chains to the CA the client trusts (three of the 24 triples), every other pairing is never answered Ok and nothing it publishes reaches a trusted subscriber; non-trivial = any pairing other than trusted x trusted".into();
     ctx.assumptions.push("configuration enumeration: expiry, revocation and key-usage variations are outside the property".into());
     let env = match Env::new() {
         Ok(e) => e,
